@@ -433,7 +433,12 @@ def gen_history(rng: random.Random, profile: dict) -> list:
     hist = []
     live = 0
     for _ in range(n):
-        k = G.wpick(rng, {"construct": 5 if live < 8 else 1, "restore": 3 if live else 0, "convert": 1.2 if live else 0, "use": 2 if live else 0, "drop": 0.7 if live > 2 else 0})
+        k = G.wpick(rng, {"construct": 5 if live < 8 else 1, "restore": 3 if live else 0, "convert": 1.2 if live else 0, "use": 2 if live else 0, "drop": 0.7 if live > 2 else 0, "reuse": 0.5 if live < 8 else 0})
+        if k == "reuse":
+            hist.append({"op": "reuse", "shots": rng.randint(10, 500), "matrix": [[0.0, round(rng.random(), 3)], [0.0, 0.0]], "actor": rng.randrange(3)})
+            hist[-1]["matrix"][1][0] = hist[-1]["matrix"][0][1]
+            live += 2
+            continue
         if k == "construct":
             kind = G.wpick(rng, WEIGHTS)
             hist.append({"op": "construct", "kind": kind, "spec": KINDS[kind][0](rng), "actor": rng.randrange(3)})
@@ -569,6 +574,28 @@ def _step(i, op, pool, stats, viols) -> str:
         stats[f"constructed/{kind}"] += 1
         if kind == "noise":
             _check_noise_types(i, op["spec"], obj, viols, stats)
+        return "ok"
+    if k == "reuse":
+        # the caller reuses its own argument objects for two constructions
+        # and modifies them in between (a parameter sweep)
+        import pulser.backend as pb
+
+        try:
+            obs = [pb.BitStrings(num_shots=op["shots"]), pb.Occupation(evaluation_times=[0.5])]
+            buf = np.array(op["matrix"], dtype=float)
+            extra = {"nested": [[1, 2], {"a": [3]}]}
+            cfg1 = pb.EmulationConfig(observables=obs, interaction_matrix=buf, **extra)
+            pool.append(["config", cfg1, fingerprint("config", cfg1), {"reuse": 1}])
+            obs[0].num_shots = op["shots"] + 11
+            obs[1].evaluation_times = [0.25]
+            buf[0, 1] = buf[1, 0] = buf[0, 1] + 1.0
+            extra["nested"][0].append(99)
+            cfg2 = pb.EmulationConfig(observables=obs, interaction_matrix=buf, **extra)
+            pool.append(["config", cfg2, fingerprint("config", cfg2), {"reuse": 2}])
+            stats["probe/arguments_reused_and_modified"] += 1
+        except Exception as e:  # noqa: BLE001
+            stats[f"reuse_raised/{type(e).__name__}"] += 1
+            return "raised:" + type(e).__name__
         return "ok"
     if not pool:
         return "skip"
